@@ -7,7 +7,6 @@ import (
 	"os"
 	"runtime"
 	"runtime/debug"
-	"runtime/pprof"
 	"sync"
 	"time"
 
@@ -19,39 +18,44 @@ import (
 // C18 — count-min sketch / TinyLFU estimates never under-count, saturate, age by halving.
 //
 // (a) Byte space: all 256 byte values x both nibble positions (x 3 neighbour-byte fills) for
-//     cmRow increment / get / reset / clear.
+//
+//	cmRow increment / get / reset / clear.
+//
 // (b) Explicit-state search TO FIXPOINT on the real cmSketch and the real tinyLFU for
-//     NumCounters in {2,3,4,5,8,16}, four seed vectors (set white-box), key hashes
-//     {0,1,2,mask,2^64-1}; events {Increment(k), forced aging reset, clear}; the tinyLFU's
-//     automatic reset happens inside Increment. Counters saturate, so the state space is finite.
-//     A search node is (implementation state, model vector n) where the implementation state is
-//     the raw rows (+ doorkeeper bitset + incrs for tinyLFU) and n_k = accesses of key k recorded
-//     since the last reset / clear, capped at 16. The only oracle clause that reads n is the
-//     lower bound min(n_k,15) <= estimate(k), which is monotone in n and the evolution of n is
-//     monotone too; therefore a node whose n is component-wise <= the n of an already recorded
-//     node with the SAME implementation state is subsumed (everything checked from it is checked
-//     from the recorded node at least as strictly) and is not expanded. That is the only reduction.
-//     Successors are computed by restoring a previously observed state into a live object
-//     (rows and doorkeeper words are written through the aliasing slices the export returns,
-//     incrs through SetIncrs) and executing the real operation. The shortcut is validated by
-//     re-executing the whole history of every 997th node on a fresh object (must reach the same
-//     state) and every violation is reproduced from a fresh object before it is reported.
+//
+//	NumCounters in {2,3,4,5,8,16}, four seed vectors (set white-box), key hashes
+//	{0,1,2,mask,2^64-1}; events {Increment(k), forced aging reset, clear}; the tinyLFU's
+//	automatic reset happens inside Increment. Counters saturate, so the state space is finite.
+//	A search node is (implementation state, model vector n) where the implementation state is
+//	the raw rows (+ doorkeeper bitset + incrs for tinyLFU) and n_k = accesses of key k recorded
+//	since the last reset / clear, capped at 16. The only oracle clause that reads n is the
+//	lower bound min(n_k,15) <= estimate(k), which is monotone in n and the evolution of n is
+//	monotone too; therefore a node whose n is component-wise <= the n of an already recorded
+//	node with the SAME implementation state is subsumed (everything checked from it is checked
+//	from the recorded node at least as strictly) and is not expanded. That is the only reduction.
+//	Successors are computed by restoring a previously observed state into a live object
+//	(rows and doorkeeper words are written through the aliasing slices the export returns,
+//	incrs through SetIncrs) and executing the real operation. The shortcut is validated by
+//	re-executing the whole history of every 997th node on a fresh object (must reach the same
+//	state) and every violation is reproduced from a fresh object before it is reported.
+//
 // (c) Sizing: for NumCounters 2..1025 and 2^k-1, 2^k, 2^k+1 (k <= 16): row length x 2 == mask+1 ==
-//     the next power of two >= NumCounters.
+//
+//	the next power of two >= NumCounters.
 //
 // Oracle per transition (n_k as above, probes = the alphabet keys plus every hash 0..mask, so
 // every counter position of every row is observed):
-//   * min(n_k,15) <= estimate(k) for the alphabet keys; estimate <= 16 (tinyLFU), <= 15 (bare
+//   - min(n_k,15) <= estimate(k) for the alphabet keys; estimate <= 16 (tinyLFU), <= 15 (bare
 //     sketch) for every probe;
-//   * an Increment that does not trigger a reset lowers no probe's estimate;
-//   * forced reset: every raw 4-bit counter equals its previous value shifted right by one
+//   - an Increment that does not trigger a reset lowers no probe's estimate;
+//   - forced reset: every raw 4-bit counter equals its previous value shifted right by one
 //     (neighbours untouched), doorkeeper all zero, incrs 0; n restarts at 0;
-//   * automatic reset inside Increment (observed as incrs == 0 afterwards): doorkeeper all zero,
+//   - automatic reset inside Increment (observed as incrs == 0 afterwards): doorkeeper all zero,
 //     and the resulting state equals "the same Increment without reset, then a forced reset"
 //     executed on a second real object (differential; the forced reset itself is checked exactly);
 //     n restarts at 0;
-//   * clear: rows, doorkeeper, incrs all zero; every estimate 0; n restarts at 0;
-//   * no call panics.
+//   - clear: rows, doorkeeper, incrs all zero; every estimate 0; n restarts at 0;
+//   - no call panics.
 func init() { register("C18", "model_checking", c18) }
 
 const (
@@ -394,6 +398,25 @@ func (s *c18Sys) do(e c18Ev) (p any) {
 	})
 }
 
+// rowsDisagree reports whether some probe hash reads different counter values in different
+// rows. Statistic only (never an oracle): it documents that, because the seed merely permutes
+// positions inside a row, "minimum over rows" is not observable on reachable states.
+func (s *c18Sys) rowsDisagree(rows []byte) bool {
+	for _, h := range s.probes {
+		first := byte(0)
+		for i := 0; i < 4; i++ {
+			idx := (h ^ s.seeds[i]) & s.mask
+			v := c18Nib(rows[i*s.rowLen+int(idx/2)], int(idx&1))
+			if i == 0 {
+				first = v
+			} else if v != first {
+				return true
+			}
+		}
+	}
+	return false
+}
+
 func (s *c18Sys) evString(e c18Ev) string {
 	if e.op == c18Inc {
 		return fmt.Sprintf("Increment(%#x)", s.keys[e.k])
@@ -623,25 +646,26 @@ func c18RunCase(c c18Case, verbose bool) (v *c18Viol, at int, final *c18Snap, n 
 // explicit-state search
 
 type c18Config struct {
-	Engine      string    `json:"engine"`
-	NumCounters int64     `json:"num_counters"`
-	Seeds       [4]uint64 `json:"seeds"`
-	Counters    int64     `json:"counters_per_row"`
-	Keys        []uint64  `json:"key_hashes"`
-	Probes      int       `json:"probe_hashes"`
-	DepthBound  int       `json:"depth_bound"` // 0 = none (fixpoint)
-	ImplStates  int64     `json:"impl_states"`
-	States      int64     `json:"states"`
-	Subsumed    int64     `json:"successors_subsumed"`
-	Trans       int64     `json:"transitions"`
-	AutoResets  int64     `json:"automatic_resets"`
-	Saturated   int64     `json:"transitions_on_saturated_counter"`
-	MaxDepth    int       `json:"max_depth"`
-	Replayed    int64     `json:"histories_replayed_from_scratch"`
-	Violations  int64     `json:"violations"`
-	Exhaustive  bool      `json:"exhaustive"`
-	Stopped     string    `json:"stopped,omitempty"`
-	WallS       float64   `json:"wall_s"`
+	Engine       string    `json:"engine"`
+	NumCounters  int64     `json:"num_counters"`
+	Seeds        [4]uint64 `json:"seeds"`
+	Counters     int64     `json:"counters_per_row"`
+	Keys         []uint64  `json:"key_hashes"`
+	Probes       int       `json:"probe_hashes"`
+	DepthBound   int       `json:"depth_bound"` // 0 = none (fixpoint)
+	ImplStates   int64     `json:"impl_states"`
+	RowsDisagree int64     `json:"impl_states_with_unequal_row_counters_for_a_hash"`
+	States       int64     `json:"states"`
+	Subsumed     int64     `json:"successors_subsumed"`
+	Trans        int64     `json:"transitions"`
+	AutoResets   int64     `json:"automatic_resets"`
+	Saturated    int64     `json:"transitions_on_saturated_counter"`
+	MaxDepth     int       `json:"max_depth"`
+	Replayed     int64     `json:"histories_replayed_from_scratch"`
+	Violations   int64     `json:"violations"`
+	Exhaustive   bool      `json:"exhaustive"`
+	Stopped      string    `json:"stopped,omitempty"`
+	WallS        float64   `json:"wall_s"`
 
 	tiny   bool
 	viols  []c18Found
@@ -744,6 +768,9 @@ func (q *c18Search) insert(sn *c18Snap, n []uint8, parent int32, e c18Ev, depth 
 		q.implIdx[ks] = impl
 		q.implKeys = append(q.implKeys, ks)
 		q.implHead = append(q.implHead, -1)
+		if q.s.rowsDisagree(sn.rows) {
+			q.cfg.RowsDisagree++
+		}
 	}
 	var nv [5]uint8
 	copy(nv[:], n)
@@ -798,13 +825,6 @@ func c18Explore(cfg *c18Config, deadline time.Time, maxNodes int) {
 		cfg.viols = append(cfg.viols, c18Found{&c18Viol{"C18/panic-estimate", fmt.Sprintf("Estimate on a fresh object panicked: %v", p)}, s.makeCase(nil)})
 		cfg.Violations++
 		return
-	}
-	for i, x := range estPre {
-		if x != 0 {
-			cfg.viols = append(cfg.viols, c18Found{&c18Viol{"C18/fresh-estimate-nonzero", fmt.Sprintf("fresh object: estimate of %#x is %d", s.probes[i], x)}, s.makeCase(nil)})
-			cfg.Violations++
-			return
-		}
 	}
 	var events []c18Ev
 	for k := range s.keys {
@@ -927,11 +947,6 @@ func c18(tier string, r *ev.Run, replay string) {
 		return
 	}
 
-	if pf := os.Getenv("VERIF_C18_PROF"); pf != "" {
-		f, _ := os.Create(pf)
-		pprof.StartCPUProfile(f)
-		defer pprof.StopCPUProfile()
-	}
 	// (a)
 	byteEvals := c18ByteSpace(r)
 	// (c)
@@ -958,7 +973,7 @@ func c18(tier string, r *ev.Run, replay string) {
 	ncs := []int64{2, 3, 4, 5, 8, 16}
 	budget := 40 * time.Second
 	workers := 1
-	maxNodes := 40_000_000
+	maxNodes := 80_000_000
 	if tier == "thorough" {
 		budget = 9 * time.Minute
 		workers = runtime.NumCPU()
@@ -976,9 +991,6 @@ func c18(tier string, r *ev.Run, replay string) {
 					c.Engine = "tinylfu"
 				}
 				c.DepthBound = c18QuickBound(tier, tiny, nc, si)
-				if only := os.Getenv("VERIF_C18_ONLY"); only != "" && only != fmt.Sprintf("%s:%d:%d", c.Engine, nc, si) {
-					continue
-				}
 				cfgs = append(cfgs, c)
 			}
 		}
@@ -988,20 +1000,26 @@ func c18(tier string, r *ev.Run, replay string) {
 	for w := 0; w < workers; w++ {
 		wg.Add(1)
 		go func() {
-			defer wg.Done()
+			// no deferred Done: a harness panic in a worker must crash the process (exit 2), not
+			// release the main goroutine
 			debug.SetPanicOnFault(true)
 			for c := range work {
 				c18Explore(c, deadline, maxNodes)
 			}
+			wg.Done()
 		}()
 	}
-	for _, c := range cfgs {
-		work <- c
+	for pass := 0; pass < 2; pass++ { // dispatch the most expensive configurations first
+		for _, c := range cfgs {
+			if big := c.tiny && c.NumCounters >= 16; big == (pass == 0) {
+				work <- c
+			}
+		}
 	}
 	close(work)
 	wg.Wait()
 
-	var states, impl, trans, replayed, autos, sat int64
+	var states, impl, trans, replayed, autos, sat, disagree int64
 	exhaustive := true
 	nonExh := 0
 	for _, c := range cfgs {
@@ -1014,6 +1032,7 @@ func c18(tier string, r *ev.Run, replay string) {
 		replayed += c.Replayed
 		autos += c.AutoResets
 		sat += c.Saturated
+		disagree += c.RowsDisagree
 		if !c.Exhaustive {
 			exhaustive = false
 			nonExh++
@@ -1033,6 +1052,7 @@ func c18(tier string, r *ev.Run, replay string) {
 	r.Cov["histories_replayed_from_scratch"] = replayed
 	r.Cov["automatic_resets"] = autos
 	r.Cov["transitions_on_saturated_counter"] = sat
+	r.Cov["impl_states_with_unequal_row_counters_for_a_hash"] = disagree
 	r.Cov["configurations"] = cfgs
 	r.Cov["configurations_total"] = len(cfgs)
 	r.Cov["configurations_not_exhaustive"] = nonExh
@@ -1048,7 +1068,26 @@ func c18(tier string, r *ev.Run, replay string) {
 	}
 }
 
-// c18QuickBound returns the BFS depth bound of a configuration (0 = run to fixpoint).
+// c18QuickBound returns the BFS depth bound of a configuration (0 = run to fixpoint). The
+// thorough tier runs everything to fixpoint. The quick tier runs to fixpoint: the bare sketch
+// for NumCounters 2 (all seeds) and for one seed vector per larger NumCounters (a different one
+// each), the tinyLFU for NumCounters <= 8 (all seeds); the rest is bounded by depth (the
+// tinyLFU with 16 counters deep enough to pass the first automatic reset after 16 increments).
 func c18QuickBound(tier string, tiny bool, nc int64, seedIdx int) int {
-	return 0
+	if tier != "quick" {
+		return 0
+	}
+	if !tiny {
+		if nc == 2 || int(nc)%4 == seedIdx {
+			return 0
+		}
+		return 20
+	}
+	if nc <= 8 {
+		return 0
+	}
+	if seedIdx == 0 {
+		return 22
+	}
+	return 18
 }
